@@ -200,6 +200,95 @@ template <typename T> static void assign_rank2(bool full) {
   }
 }
 
+
+// ---------------------------------------------------------------- operands with explicit strides, FixedArray operands
+// G type w rank d0..d(r-1) kind | mt st0..st(r-1) | ma sa0..sa(r-1) | head packets tail mism     (kind 0: t = a + a, 1: sum(a))
+template <typename T, class A> static void g_line(int rank, const int* d, int kind, const T* tp, const int* st, const T* ap, const int* sa,
+                                                  long h, long p, long tl, int mism) {
+  const int W = internal::Packet<T>::size;
+  std::printf("G %s %d %d", Name<T>::s(), W, rank);
+  for (int i = 0; i < rank; ++i) std::printf(" %d", d[i]);
+  std::printf(" %d %ld", kind, amod(tp, W)); for (int i = 0; i < rank; ++i) std::printf(" %d", st[i]);
+  std::printf(" %ld", amod(ap, W)); for (int i = 0; i < rank; ++i) std::printf(" %d", sa[i]);
+  std::printf(" %ld %ld %ld %d\n", h, p, tl, mism);
+}
+template <typename T> static T* aligned_in(std::vector<T>& buf, int W, int shift) { T* p = &buf[0]; while (amod(p, W) != 0) ++p; return p + shift; }
+template <typename T> static void general_rank3() {
+  const int W = internal::Packet<T>::size;
+  typedef Array<3, T, false> A3;
+  const int n = 3 * W + 1, rowpad = 4 * W;
+  int rstrides[] = { rowpad, rowpad + 1, n };            // padded, unpadded rows
+  int pextra[] = { 0, 1, W, W + 1, 2 * W };             // plane stride = 2 * row stride + extra
+  for (int ri = 0; ri < 3; ++ri) for (int pi = 0; pi < 5; ++pi) for (int sh = 0; sh < W; sh += (W > 4 ? 3 : 1)) {
+    int rs = rstrides[ri], ps = 2 * rs + pextra[pi];
+    std::vector<T> bt(3 * ps + 8 * W), ba(3 * ps + 8 * W);
+    T* pt = aligned_in(bt, W, sh); T* pa = aligned_in(ba, W, sh);
+    A3 t(pt, 0, dimensions(2, 2, n), dimensions(ps, rs, 1)), a(pa, 0, dimensions(2, 2, n), dimensions(ps, rs, 1));
+    for (int i = 0; i < 2; ++i) for (int j = 0; j < 2; ++j) for (int k = 0; k < n; ++k) { a(i, j, k) = val<T>(); t(i, j, k) = T(-3); }
+    int d[3] = { 2, 2, n }, st[3] = { ps, rs, 1 };
+    reset_log(); t = a + a;
+    long h = adept::verif::simd_log().head, p = adept::verif::simd_log().packets, tl = adept::verif::simd_log().tail;
+    int mism = 0; for (int i = 0; i < 2; ++i) for (int j = 0; j < 2; ++j) for (int k = 0; k < n; ++k) if (!same(t(i, j, k), a(i, j, k) + a(i, j, k))) ++mism;
+    g_line<T, A3>(3, d, 0, pt, st, pa, st, h, p, tl, mism);
+    reset_log(); T sv = sum(a); h = adept::verif::simd_log().head; p = adept::verif::simd_log().packets; tl = adept::verif::simd_log().tail;
+    long double ex = 0, ab = 0; for (int i = 0; i < 2; ++i) for (int j = 0; j < 2; ++j) for (int k = 0; k < n; ++k) { ex += a(i, j, k); ab += std::fabs((long double)a(i, j, k)); }
+    long double u = std::numeric_limits<T>::epsilon() / 2, g = (4 * n + 2) * u;
+    g_line<T, A3>(3, d, 1, pt, st, pa, st, h, p, tl, (int)!(std::fabs((long double)sv - ex) <= 2 * g * ab));
+  }
+}
+template <typename T, int N> static void general_fixed1() {
+  const int W = internal::Packet<T>::size;
+  typedef FixedArray<T, false, N> F; typedef Array<1, T, false> V;
+  V TP(N + 4 * W);
+  void* raw = 0; if (posix_memalign(&raw, 64, sizeof(F) + 64 * sizeof(T))) return;
+  for (int k = 0; k < W; ++k) for (int ot = 0; ot < W; ++ot) {
+    F* f = new ((char*)raw + sizeof(T) * k) F;
+    for (int i = 0; i < N; ++i) (*f)(i) = val<T>();
+    for (int i = 0; i < N + 4 * W; ++i) TP(i) = T(-5);
+    V t = TP(range(ot, ot + N - 1));
+    int d[1] = { N }, st[1] = { 1 };
+    reset_log(); t = *f + *f;
+    long h = adept::verif::simd_log().head, p = adept::verif::simd_log().packets, tl = adept::verif::simd_log().tail;
+    int mism = 0; for (int i = 0; i < N; ++i) if (!same(t(i), (*f)(i) + (*f)(i))) ++mism;
+    for (int i = 0; i < N + 4 * W; ++i) if ((i < ot || i >= ot + N) && !same(TP(i), T(-5))) ++mism;
+    g_line<T, V>(1, d, 0, t.const_data(), st, f->const_data(), st, h, p, tl, mism);
+    reset_log(); T sv = sum(*f); h = adept::verif::simd_log().head; p = adept::verif::simd_log().packets; tl = adept::verif::simd_log().tail;
+    long double ex = 0, ab = 0; for (int i = 0; i < N; ++i) { ex += (*f)(i); ab += std::fabs((long double)(*f)(i)); }
+    long double u = std::numeric_limits<T>::epsilon() / 2, g = (N + 2) * u;
+    g_line<T, V>(1, d, 1, t.const_data(), st, f->const_data(), st, h, p, tl, (int)!(std::fabs((long double)sv - ex) <= 2 * g * ab));
+    f->~F();
+  }
+  free(raw);
+}
+template <typename T, int N> static void general_fixed2() {
+  const int W = internal::Packet<T>::size;
+  typedef FixedArray<T, false, 3, N> F; typedef Array<2, T, false> M;
+  void* raw = 0; if (posix_memalign(&raw, 64, sizeof(F) + 64 * sizeof(T))) return;
+  for (int k = 0; k < W; ++k) for (int ot = 0; ot < W; ot += (W > 4 ? 3 : 1)) {
+    F* f = new ((char*)raw + sizeof(T) * k) F;
+    M TP(3, N + 4 * W);
+    for (int j = 0; j < 3; ++j) { for (int i = 0; i < N; ++i) (*f)(j, i) = val<T>(); for (int i = 0; i < N + 4 * W; ++i) TP(j, i) = T(-5); }
+    M t = TP(__, range(ot, ot + N - 1));
+    int d[2] = { 3, N }, st[2] = { (int)t.offset(0), 1 }, sa[2] = { N, 1 };
+    reset_log(); t = *f + *f;
+    long h = adept::verif::simd_log().head, p = adept::verif::simd_log().packets, tl = adept::verif::simd_log().tail;
+    int mism = 0; for (int j = 0; j < 3; ++j) for (int i = 0; i < N; ++i) if (!same(t(j, i), (*f)(j, i) + (*f)(j, i))) ++mism;
+    g_line<T, M>(2, d, 0, t.const_data(), st, f->const_data(), sa, h, p, tl, mism);
+    reset_log(); T sv = sum(*f); h = adept::verif::simd_log().head; p = adept::verif::simd_log().packets; tl = adept::verif::simd_log().tail;
+    long double ex = 0, ab = 0; for (int j = 0; j < 3; ++j) for (int i = 0; i < N; ++i) { ex += (*f)(j, i); ab += std::fabs((long double)(*f)(j, i)); }
+    long double u = std::numeric_limits<T>::epsilon() / 2, g = (3 * N + 2) * u;
+    g_line<T, M>(2, d, 1, t.const_data(), st, f->const_data(), sa, h, p, tl, (int)!(std::fabs((long double)sv - ex) <= 2 * g * ab));
+    f->~F();
+  }
+  free(raw);
+}
+template <typename T> static void general_all() {
+  const int W = internal::Packet<T>::size;
+  general_rank3<T>();
+  general_fixed1<T, 2 * W>(); general_fixed1<T, 3 * W + 1>(); general_fixed1<T, 4 * W + 3>();
+  general_fixed2<T, 2 * W>(); general_fixed2<T, 2 * W + 1>(); general_fixed2<T, 3 * W>(); general_fixed2<T, 4 * W - 1>();
+}
+
 // ---------------------------------------------------------------- reductions
 template <typename T, class V> static void reduce_line(int rank, int rows, int n, const V& a, const V& b, const V& sa, const V& sb, long oa, long ob, int W) {
   const long double u = std::numeric_limits<T>::epsilon() / 2;
@@ -320,7 +409,8 @@ int main(int argc, char** argv) {
   if (argc > 4 && std::string(argv[4]) == "fxonly") fx_mode = 1;
   if (argc > 3) rng_state ^= std::strtoull(argv[3], 0, 10) * 0x2545F4914F6CDD1DULL;
   std::printf("B %d %d\n", (int)internal::Packet<float>::size, (int)internal::Packet<double>::size);
-  if (mode == "assign") { assign_rank1<float>(full); assign_rank1<double>(full); assign_rank2<float>(full); assign_rank2<double>(full); }
+  if (mode == "general") { general_all<float>(); general_all<double>(); }
+  else if (mode == "assign") { assign_rank1<float>(full); assign_rank1<double>(full); assign_rank2<float>(full); assign_rank2<double>(full); }
   else if (mode == "reduce") { reduce_all<float>(full); reduce_all<double>(full); }
   else if (mode == "fastexp") { fastexp_all<float>(); fastexp_all<double>(); }
   return 0;
